@@ -934,6 +934,12 @@ func runJB(c *vf.Case) {
 	x.cfg = 50
 	if withOpt {
 		x.cfg = r.Pick(1, 2, 3, 5, 10, 20, 49, 50, 51, 60, r.Range(1, 60), r.Range(1, 60), r.Range(1, 15))
+		if r.Chance(0.08) {
+			// a minimum above the buffer's overflow mark (100 packets): still the minimum
+			x.cfg = r.Pick(99, 100, 101, 102, 103, 120, 150, 200)
+			n = max(n, 2*x.cfg+50)
+			x.g = newSeqGen(r, n)
+		}
 		x.jb = jitterbuffer.New(jitterbuffer.WithMinimumPacketCount(uint16(x.cfg)))
 	} else {
 		x.jb = jitterbuffer.New()
